@@ -3,7 +3,7 @@ import os, json, random
 import common as C
 
 M32 = 1 << 32
-ISNS = [0, 1, 1000, (1 << 31) - 3, (1 << 31), (1 << 32) - 1, (1 << 32) - 2, (1 << 32) - 3, (1 << 32) - 40, (1 << 32) - 70000]
+ISNS = [0, 1, 1000, (1 << 31) - 3, (1 << 31), (1 << 32) - 1, (1 << 32) - 2, (1 << 32) - 3, (1 << 32) - 40, (1 << 32) - 70000, 0x90000002, 0xffffff82, 0x7ffffffe]
 
 
 def hexs(b):
